@@ -45,8 +45,24 @@ def h(t, part):
         args = args + (t.str(2),)
     if is_server:
         args = ('SID',) + args
+    if part.get('legacy'):
+        args = args + ('REASON',)
+
+    legacy = part.get('legacy', False)      # disconnect handlers written without the reason argument
 
     def target(tag):
+        if legacy:
+            # accepts exactly one argument less than it is first called with (TypeError, then the documented retry)
+            def f(*a):
+                if a and a[-1] == 'REASON':
+                    raise TypeError('takes %d positional arguments' % (len(a) - 1))
+                calls.append((tag, a + ('REASON',)))
+                return 'ret-' + tag
+            if coro_handlers:
+                async def g(*a):
+                    return f(*a)
+                return g
+            return f
         if coro_handlers:
             async def f(*a):
                 calls.append((tag, a))
@@ -134,10 +150,11 @@ def parts(tier):
             if e == 'connect_error' and 'Server' in c:
                 continue
             out.append({'cls': c, 'ev': e})
+        out.append({'cls': c, 'ev': 'disconnect', 'legacy': True})
     return out
 
 
-CHECKS = [dict(name='resolve', fn=h, parts=parts, budget={'quick': 60, 'thorough': 240}, per_path_s=15)]
+CHECKS = [dict(name='resolve', fn=h, parts=parts, budget={'quick': 180, 'thorough': 240}, per_path_s=15)]
 
 META = dict(
     explanation='Real _trigger_event of Server/AsyncServer/Client/AsyncClient and real trigger_event of the four '
@@ -146,7 +163,7 @@ META = dict(
                      '{ev,message,connect,disconnect,connect_error} x sync/coroutine targets x arguments (symbolic int -3..3, optional '
                      'symbolic str len<=2)',
             'thorough': 'same (the space is exhausted in the quick tier already)'},
-    outside=['event and namespace names outside the palette', 'class namespaces lacking the on_<event> method'],
+    outside=['event and namespace names outside the palette', 'legacy handlers other than function handlers for disconnect', 'class namespaces lacking the on_<event> method'],
     stubs=['engine.io server/client replaced by vf.stubs fakes (not exercised here)', 'asyncio -> vf.miniloop (FIFO)',
            'logging -> null logger'],
     assumptions=['event and namespace names are drawn from a concrete palette; arguments are symbolic leaves'],
